@@ -5,7 +5,8 @@
  * (src/vbi.c vbi_event_handler_register/unregister/add/remove, vbi_send_event,
  * and vbi_decode of a real Teletext page for the gating clause).
  *
- * Alphabet (79 letters), handlers = 3 callback functions x 2 user pointers:
+ * Alphabet of the registry-* phases (79 letters), handlers = 3 callback
+ * functions x 2 user pointers:
  *   reg(f,u,m)  30   vbi_event_handler_register, m in {TTX, CC, TTX|CC, -1, TRIGGER|NETWORK}
  *   unreg(f,u)   6   vbi_event_handler_unregister   (== register with mask 0)
  *   add(f,u,m)  30   legacy vbi_event_handler_add (matches on function only)
@@ -19,6 +20,42 @@
  *                    actions per history, both may sit on the same handler)
  * A history is a program in the sense of DESIGN.md C11: top level steps plus
  * scripted callback actions bound to (handler, next invocation).
+ *
+ * Two more phase families with alphabets of their own (struct cfg; the letter
+ * kinds are the same, only the handlers / masks / real inputs differ), both
+ * motivated by seed C11 round 5 - dimensions no history of the registry-* phases
+ * has: a real input which is NOT atomic with respect to the registry history.
+ *   gate-*: a Teletext page sent in pieces.  tx-open = vbi_decode(header 2xx +
+ *     row 1), tx-close = vbi_decode(terminating header 2FF); registry calls (top
+ *     level or scripted into callbacks), raises and complete pages in magazine 3
+ *     (`transmit', whose real TTX_PAGE event runs callbacks while the page in
+ *     magazine 2 is in flight) come between.  tx-open while a page is in flight
+ *     is the header of the next page.  2 functions x 2 user pointers x masks
+ *     {TTX, CC, TTX|CC} (gate-callbacks: 1 x 2 x {TTX, CC}, deeper).
+ *     Reference for "pages are acquired exactly while a handler requests them":
+ *     the page is cached and announced (exactly one TTX_PAGE event carrying its
+ *     number, audited like every delivery) iff some registration requested
+ *     TTX_PAGE at every moment from the decode call of its header to the decode
+ *     call of its terminating header; when the last requesting handler was
+ *     removed or re-masked in between - at top level or inside a callback - the
+ *     page is neither cached nor announced, also when a handler is registered
+ *     again before the terminating header (vbi_event_enable() resets the
+ *     Teletext decoder on activation).  Only when the gap lies INSIDE the decode
+ *     call of the page's own header (callbacks of the page terminated by that
+ *     header) the status of the new page is not compared.
+ *   bsd-*: one vbi_decode call which raises several events of different types.
+ *     bsd1 = Teletext packet 8/30 format 1 (NETWORK, NETWORK_ID when this packet
+ *     identifies the network, then LOCAL_TIME), bsd2 = format 2 (NETWORK,
+ *     NETWORK_ID, then PROG_ID).  2 functions x 2 user pointers x masks
+ *     {NETWORK|NETWORK_ID, NETWORK_ID, LOCAL_TIME, PROG_ID, -1}.  The audit
+ *     splits the call into stages: the registrations which are owed a stage's
+ *     event are those present when it is raised, i.e. AFTER the callbacks of the
+ *     earlier stages of the same call - a handler registered for LOCAL_TIME
+ *     inside the NETWORK callback of a packet is owed the LOCAL_TIME event of
+ *     that very packet, one removed there is not called.  LOCAL_TIME / PROG_ID
+ *     are due with every packet of their format if anybody is registered for
+ *     them; whether NETWORK / NETWORK_ID are raised is network identification,
+ *     not C11: a delivery that happens is audited, none is demanded.
  *
  * Oracle = list model driven in lock step by the real callbacks (it audits the
  * delivery, it does not predict it):
@@ -34,12 +71,14 @@
  *     un-registering followed by registering the same (function,user pointer)
  *     creates a NEW registration in this sense;
  *   - ASan: no freed record is touched (crash => violation by the engine);
- *   - transmit: vbi_is_cached(page) <=> some registration's mask had TTX_PAGE.
+ *   - transmit: vbi_is_cached(page) <=> some registration's mask had TTX_PAGE;
+ *     real TTX_PAGE events must carry the number of a page that is due.
  * After every history the real list is compared with the model (any difference
  * in (function, user pointer, mask) order is observable by some later raise, so
  * this only saves depth), then PROBES run on the object that is thrown away
- * anyway: raise of each type (pending scripts do fire) and one transmit.  The
- * probes make a history of n letters cover what would need n+1.
+ * anyway: raise of each type (pending scripts do fire) and one transmit; gate-*:
+ * also the terminating header of a page still in flight; bsd-*: two packets of
+ * each format.  The probes make a history of n letters cover what would need n+1.
  *
  * Deviations from DESIGN.md C11, forced by the engine / the budget:
  *   - letters are bytes (<= 256): scripted actions use the two letter "in(h):"
@@ -62,6 +101,10 @@
  *     outside the registry.
  * Keys: oracle violations are "<class> [no callback action | after callback
  * removal | after other callback action]" (context only inside a delivery);
+ * "event due in a decode call not delivered to any handler: <TYPE> [...]" when a
+ * later stage of a decode call is not raised although somebody is registered;
+ * "teletext page acquired although TTX_PAGE was not requested throughout its
+ * transmission" / "teletext page in flight lost although ..." for pages in pieces;
  * crashes are "<callback <call>(<position of its target relative to the
  * running handler>) | event registry, top level> crash=<class>@<function>".
  */
@@ -133,57 +176,99 @@ void __wrap_free(void *p)
 #define NF 3
 #define NU 2
 #define NH (NF * NU)
-#define NM 5
-#define FS (NU * NM)    /* letters per function in the reg/add blocks */
-static const int   MASKS[NM] = { VBI_EVENT_TTX_PAGE, VBI_EVENT_CAPTION, VBI_EVENT_TTX_PAGE | VBI_EVENT_CAPTION, -1, VBI_EVENT_TRIGGER | VBI_EVENT_NETWORK };
-static const char *MASKN[NM] = { "TTX", "CC", "TTX|CC", "ALL", "TRIGGER|NETWORK" };
-static const int   TYPES[3]  = { VBI_EVENT_TTX_PAGE, VBI_EVENT_CAPTION, VBI_EVENT_NETWORK };
-static const char *TYPEN[3]  = { "TTX_PAGE", "CAPTION", "NETWORK" };
+#define NM 5            /* masks of the registry-* phases */
+#define NMX 9           /* all masks */
+#define FS (NU * NM)    /* letters per function in the reg/add blocks of the registry-* alphabet */
+static const int   MASKS[NMX] = { VBI_EVENT_TTX_PAGE, VBI_EVENT_CAPTION, VBI_EVENT_TTX_PAGE | VBI_EVENT_CAPTION, -1, VBI_EVENT_TRIGGER | VBI_EVENT_NETWORK,
+                                  VBI_EVENT_NETWORK | VBI_EVENT_NETWORK_ID, VBI_EVENT_NETWORK_ID, VBI_EVENT_LOCAL_TIME, VBI_EVENT_PROG_ID };
+static const char *MASKN[NMX] = { "TTX", "CC", "TTX|CC", "ALL", "TRIGGER|NETWORK", "NETWORK|NETWORK_ID", "NETWORK_ID", "LOCAL_TIME", "PROG_ID" };
+#define NT 6
+static const int   TYPES[NT]  = { VBI_EVENT_TTX_PAGE, VBI_EVENT_CAPTION, VBI_EVENT_NETWORK, VBI_EVENT_NETWORK_ID, VBI_EVENT_LOCAL_TIME, VBI_EVENT_PROG_ID };
+static const char *TYPEN[NT]  = { "TTX_PAGE", "CAPTION", "NETWORK", "NETWORK_ID", "LOCAL_TIME", "PROG_ID" };
+static const char *type_name(int type) { for (int t = 0; t < NT; t++) if (TYPES[t] == type) return TYPEN[t]; return "?"; }
 
-enum { K_REG, K_UNREG, K_ADD, K_REMOVE };
+enum { K_REG, K_UNREG, K_ADD, K_REMOVE,                 /* registry calls ("ops") */
+       K_RAISE, K_TX, K_TXOPEN, K_TXCLOSE, K_BSD1, K_BSD2, K_IN };
 static const char *KINDN[4] = { "register", "unregister", "add", "remove" };
+/* numbering of the registry-* alphabet (3 functions x 2 user pointers x masks 0..4, 3 raises, transmit): the
+ * letters every phase family had before seed C11 round 5; the self check is written in these numbers */
 enum { L_REG = 0, L_UNREG = NF * FS, L_ADD = L_UNREG + NH, L_REMOVE = L_ADD + NF * FS, NOPS = L_REMOVE + NF, L_RAISE = NOPS, L_TX = L_RAISE + 3, L_IN = L_TX + 1, NLETTERS = L_IN + NH };
 
-struct op { int kind, f, u, mi; };   /* mi: index into MASKS, -1 for mask 0 */
-
-static struct op decode_op(int l)
-{
-        struct op o = { 0, 0, 0, -1 };
-        if (l < L_UNREG)       { o.kind = K_REG;   o.f = l / FS; o.u = (l / NM) % NU; o.mi = l % NM; }
-        else if (l < L_ADD)    { o.kind = K_UNREG; l -= L_UNREG; o.f = l / 2; o.u = l % 2; }
-        else if (l < L_REMOVE) { o.kind = K_ADD;   l -= L_ADD; o.f = l / FS; o.u = (l / NM) % NU; o.mi = l % NM; }
-        else                   { o.kind = K_REMOVE; o.f = l - L_REMOVE; }
-        return o;
-}
-
-static const char *letter_name(int l, void *arg)
-{
-        static char b[4][48]; static int k; char *s = b[k++ & 3];
-        if (l < NOPS) {
-                struct op o = decode_op(l);
-                if (o.kind == K_REMOVE) snprintf(s, 48, "remove(f%d)", o.f);
-                else if (o.kind == K_UNREG) snprintf(s, 48, "unreg(f%d,u%d)", o.f, o.u);
-                else snprintf(s, 48, "%s(f%d,u%d,%s)", o.kind == K_REG ? "reg" : "add", o.f, o.u, MASKN[o.mi]);
-        } else if (l < L_TX) snprintf(s, 48, "raise(%s)", TYPEN[l - L_RAISE]);
-        else if (l == L_TX) snprintf(s, 48, "transmit");
-        else if (l < NLETTERS) snprintf(s, 48, "in(f%d,u%d):", (l - L_IN) / 2, (l - L_IN) % 2);
-        else snprintf(s, 48, "?%d", l);
-        return s;
-}
+struct letter { int kind, f, u, mi; };   /* mi: index into MASKS (-1 for mask 0) for ops, index into TYPES for raise */
+#define IS_OP(l) ((l)->kind <= K_REMOVE)
 
 /* ---- phase configuration ------------------------------------------------ */
 
+enum { F_TX = 1, F_SPLIT = 2, F_BSD = 4 };
+#define MAXL 128
 struct cfg {
         const char *name;
         int ninit; struct { int f, u, mi; } init[4];     /* registrations made before the history */
         int depth[2];                                      /* quick, thorough */
         int max_scripts;
+        /* alphabet of the phase: handlers f < nf, u < nu; masks MASKS[m[0..nm)]; raise of TYPES[0..nraise); features */
+        int nf, nu, nm, m[6], nraise, feat;
+        int nl; struct letter L[MAXL];                     /* built by build_cfg() */
 };
+
+static void build_cfg(struct cfg *c)
+{
+        int n = 0;
+#define PUT(k, f_, u_, mi_) do { if (n >= MAXL) { fprintf(stderr, "C11: alphabet overflow\n"); exit(2); } c->L[n].kind = (k); c->L[n].f = (f_); c->L[n].u = (u_); c->L[n].mi = (mi_); n++; } while (0)
+        for (int f = 0; f < c->nf; f++) for (int u = 0; u < c->nu; u++) for (int k = 0; k < c->nm; k++) PUT(K_REG, f, u, c->m[k]);
+        for (int f = 0; f < c->nf; f++) for (int u = 0; u < c->nu; u++) PUT(K_UNREG, f, u, -1);
+        for (int f = 0; f < c->nf; f++) for (int u = 0; u < c->nu; u++) for (int k = 0; k < c->nm; k++) PUT(K_ADD, f, u, c->m[k]);
+        for (int f = 0; f < c->nf; f++) PUT(K_REMOVE, f, 0, -1);
+        for (int t = 0; t < c->nraise; t++) PUT(K_RAISE, 0, 0, t);
+        if (c->feat & F_TX) PUT(K_TX, 0, 0, -1);
+        if (c->feat & F_SPLIT) { PUT(K_TXOPEN, 0, 0, -1); PUT(K_TXCLOSE, 0, 0, -1); }
+        if (c->feat & F_BSD) { PUT(K_BSD1, 0, 0, -1); PUT(K_BSD2, 0, 0, -1); }
+        for (int f = 0; f < c->nf; f++) for (int u = 0; u < c->nu; u++) PUT(K_IN, f, u, -1);
+#undef PUT
+        c->nl = n;
+}
+
+static const char *op_str(const struct letter *o, char *s, size_t n)
+{
+        switch (o->kind) {
+        case K_REMOVE:  snprintf(s, n, "remove(f%d)", o->f); break;
+        case K_UNREG:   snprintf(s, n, "unreg(f%d,u%d)", o->f, o->u); break;
+        case K_REG:     snprintf(s, n, "reg(f%d,u%d,%s)", o->f, o->u, MASKN[o->mi]); break;
+        case K_ADD:     snprintf(s, n, "add(f%d,u%d,%s)", o->f, o->u, MASKN[o->mi]); break;
+        case K_RAISE:   snprintf(s, n, "raise(%s)", TYPEN[o->mi]); break;
+        case K_TX:      snprintf(s, n, "transmit"); break;
+        case K_TXOPEN:  snprintf(s, n, "tx-open"); break;
+        case K_TXCLOSE: snprintf(s, n, "tx-close"); break;
+        case K_BSD1:    snprintf(s, n, "bsd1"); break;
+        case K_BSD2:    snprintf(s, n, "bsd2"); break;
+        case K_IN:      snprintf(s, n, "in(f%d,u%d):", o->f, o->u); break;
+        default:        snprintf(s, n, "?"); break;
+        }
+        return s;
+}
+
+static const char *letter_name(int l, void *arg)
+{
+        static char b[4][48]; static int k; char *s = b[k++ & 3];
+        const struct cfg *c = arg;
+        if (l < 0 || l >= c->nl) { snprintf(s, 48, "?%d", l); return s; }
+        return op_str(&c->L[l], s, 48);
+}
 
 /* ---- model + audit state (one history) ---------------------------------- */
 
-struct rec { int f, u, mask, seq; int must, called, fresh; };
-struct script { int h, letter; };
+struct rec { int f, u, mask, seq; int must, called, fresh; int born_stage; /* 1 + stage of the running decode call in which it was created */ };
+struct script { int h; struct letter l; };
+
+/* One vbi_decode() call may raise several events one after the other (seed C11 round 5): the stages it can
+ * go through, in order.  MUST: raised when it is reached iff a registration wants the type at that moment
+ * (the moment = after the deliveries of the earlier stages); OPTIONAL: whether the decoder raises it is not
+ * C11's business (network identification), a delivery that does happen is audited like any other. */
+enum { ST_MUST, ST_OPTIONAL };
+struct stage { int type, pgno, mode; };
+/* the page on air in magazine 2 (tx-open ... tx-close) */
+enum { AIR_NONE, AIR_CLEAN /* TTX_PAGE requested ever since its header */, AIR_TAINTED /* not requested at some moment: must not be acquired */,
+       AIR_UNDEF /* requested at the start and the end of the decode call of its header but not throughout: not compared */ };
 
 static int udtag[NU];                       /* user pointers are &udtag[u] */
 static void cb0(vbi_event *ev, void *ud);
@@ -202,7 +287,13 @@ static struct {
         char last_action[64];               /* last scripted action run in this delivery */
         int action_class;                   /* 0 none yet, 1 some action removed a record, 2 other actions only */
         int bad;                            /* a violation was reported: stop auditing this history */
-        int ncalls, nscripts_run, fixups, frame, ntx;
+        int ncalls, nscripts_run, fixups, frame, npage;
+        /* real decode call in progress */
+        int in_decode, cur, nst, takers_cur, decode_actions, gap_in_decode, forbid_pgno, later_removed, stages_seen, ev_overwritten;
+        struct stage st[4];
+        const char *forbid_key;
+        struct { int pgno; const char *key; } dead[16]; int ndead;
+        int air, air_pgno, air_ops, air_taint_cb;
         unsigned char log[48]; int nlog;    /* handlers called, in order (samples / self check) */
         unsigned outcomes;
 } G;
@@ -210,7 +301,8 @@ static struct {
 enum {
         O_PLAIN_MULTI, O_NO_TAKER, O_RM_SELF, O_RM_NEXT, O_RM_LATER, O_RM_EARLIER, O_FRESH_CALLED, O_FRESH_NOT_CALLED,
         O_DROP_NOT_CALLED, O_GAIN_CALLED, O_GAIN_NOT_CALLED, O_TX_ACQ, O_TX_NOT_ACQ, O_REREG_SAME_DELIVERY, O_MASK_CHANGE_IN_CB,
-        O_LEGACY_MULTI_REMOVE, O_REAL_EVENT_SCRIPT, O_N
+        O_LEGACY_MULTI_REMOVE, O_REAL_EVENT_SCRIPT,
+        O_AIR_KEPT, O_AIR_GAP_TOP, O_AIR_GAP_CB, O_AIR_LEFT, O_AIR_UNDEF, O_BSD1_ALL, O_BSD2_ALL, O_NET_EVENT_SCRIPT, O_LATER_STAGE_CALLED, O_LATER_STAGE_REMOVED, O_N
 };
 static const char *OUTN[O_N] = {
         "delivery without callback action: >=2 handlers called once each in registration order",
@@ -229,8 +321,19 @@ static const char *OUTN[O_N] = {
         "handler unregistered and registered again inside one delivery: new registration called",
         "callback changed a mask only",
         "legacy remove deleted >=2 records in one call from a callback",
-        "scripted action ran inside a TTX_PAGE event raised by the real decoder"
+        "scripted action ran inside a TTX_PAGE event raised by the real decoder",
+        "registry calls while a page was in flight, TTX_PAGE requested throughout: page cached, event delivered",
+        "last TTX_PAGE handler removed / re-masked at top level while a page was in flight, a handler registered again before the terminating header: page neither cached nor announced",
+        "last TTX_PAGE handler removed / re-masked inside a callback while a page was in flight, a handler registered again before the terminating header: page neither cached nor announced",
+        "no TTX_PAGE handler at the terminating header of a page in flight: page not cached",
+        "TTX_PAGE handlers removed and registered again inside the decode call of a page header (status of that page not compared)",
+        "one packet 8/30 format 1 raised NETWORK, NETWORK_ID and LOCAL_TIME",
+        "one packet 8/30 format 2 raised NETWORK, NETWORK_ID and PROG_ID",
+        "scripted action ran inside a NETWORK / NETWORK_ID event raised by the real decoder",
+        "handler registered (or type added) inside the callback of an earlier event of a decode call: called for the later event of the same call",
+        "handler removed (or type dropped) inside the callback of an earlier event of a decode call: not called for the later event of the same call"
 };
+typedef char outcome_bits_fit[O_N <= 32 ? 1 : -1];
 static void outcome(int o)
 {
         static unsigned emitted;            /* per process */
@@ -249,7 +352,7 @@ static const char *hist_str(void)
                 o += snprintf(b + o, sizeof b - o, "} ");
         }
         for (int i = 0; i < G.n && o + 60 < sizeof b; i++)
-                o += snprintf(b + o, sizeof b - o, "%s%s", i ? " ; " : "", letter_name(G.hist[i], NULL));
+                o += snprintf(b + o, sizeof b - o, "%s%s", i ? " ; " : "", letter_name(G.hist[i], (void *) G.cfg));
         return b;
 }
 
@@ -274,7 +377,7 @@ static void fail(const char *cls, const char *extra)
                                     G.action_class == 1 ? "after callback removal" : "after other callback action");
         else snprintf(key, sizeof key, "%s", cls);
         mc_violation(key, "%s | history: %s | model list: %s | event %s | last action: %s", extra ? extra : "", hist_str(), model_str(),
-                     G.in_delivery ? (G.type == TYPES[0] ? TYPEN[0] : G.type == TYPES[1] ? TYPEN[1] : TYPEN[2]) : "-",
+                     G.in_delivery ? type_name(G.type) : "-",
                      G.last_action[0] ? G.last_action : "-");
 }
 
@@ -305,6 +408,7 @@ static void model_set_mask(int i, int mask)
                 if ((old & G.type) && !(mask & G.type)) { leaving_must_set(i); G.r[i].must = 0; if (!G.r[i].called) G.r[i].fresh |= 8; }   /* no longer registered for the type */
                 if (!(old & G.type) && (mask & G.type) && !G.r[i].called) G.r[i].fresh |= 2;   /* gained the type: 0 or 1 calls */
         }
+        if (G.in_decode && (mask & ~old)) G.r[i].born_stage = G.cur + 1;
 }
 static void model_append(int f, int u, int mask)
 {
@@ -313,15 +417,16 @@ static void model_append(int f, int u, int mask)
         memset(r, 0, sizeof *r);
         r->f = f; r->u = u; r->mask = mask; r->seq = ++G.seq;
         r->fresh = G.in_delivery ? 1 : 0;
+        r->born_stage = G.in_decode ? G.cur + 1 : 0;
         if (G.in_delivery && (G.ever & (1u << (f * 2 + u)))) r->fresh |= 4;
         G.ever |= 1u << (f * 2 + u);
 }
 
 /* one registry call on the real object and on the model.  running = seq of the
  * registration whose callback performs it, 0 at top level. */
-static void exec_op(int letter, int running)
+static void exec_op(const struct letter *lp, int running)
 {
-        struct op o = decode_op(letter);
+        struct letter o = *lp;
         int mask = o.mi >= 0 ? MASKS[o.mi] : 0;
         int ri = running ? find_seq(running) : -1;
 
@@ -348,7 +453,17 @@ static void exec_op(int letter, int running)
                 if (rm && nmatch) G.action_class = 1; else if (G.action_class == 0) G.action_class = 2;
                 mc_case(G.last_action, "n=%d", G.n);
                 G.nscripts_run++;
+                if (G.in_decode) {
+                        G.decode_actions++;
+                        /* a later stage of this decode call is still to come: what this action does to its takers */
+                        if (G.cur >= 0 && G.cur + 1 < G.nst && G.st[G.nst - 1].mode == ST_MUST && nmatch && !(mask & G.st[G.nst - 1].type))
+                                for (int i = 0; i < G.nr; i++) {
+                                        int match = (o.kind == K_REG || o.kind == K_UNREG) ? (G.r[i].f == o.f && G.r[i].u == o.u) : (G.r[i].f == o.f);
+                                        if (match && (G.r[i].mask & G.st[G.nst - 1].type)) G.later_removed = 1;
+                                }
+                }
         }
+        int air_before = G.air;
 
         switch (o.kind) {
         case K_REG:    vbi_event_handler_register(G.vbi, mask, FN[o.f], &udtag[o.u]); break;
@@ -371,18 +486,103 @@ static void exec_op(int letter, int running)
                 }
                 if (!found && mask) model_append(o.f, o.u, mask);
         }
+
+        /* gating clause, seed C11 round 5: a page in flight whose transmission falls partly into a period in
+         * which no registration requests TTX_PAGE must not be acquired */
+        if (air_before != AIR_NONE) G.air_ops++;
+        if (!(model_union() & VBI_EVENT_TTX_PAGE)) {
+                if (G.air != AIR_NONE && G.air != AIR_TAINTED) { G.air = AIR_TAINTED; G.air_taint_cb = running != 0; }
+                if (G.in_decode) G.gap_in_decode = 1;
+        }
 }
 
 /* ---- the callbacks (audit) ---------------------------------------------- */
+
+static int begin_delivery(int type);
+static void end_delivery(int takers, int expect_raise);
+
+/* -- stages of a real decode call.  Between two deliveries of one call no registry call can happen (they
+ *    only happen inside callbacks), so the registrations seen when the first handler of a stage is called
+ *    (or, for a stage nobody was called for, when the next stage starts / the call returns) are exactly the
+ *    registrations at the moment the event was (or should have been) raised. */
+static int stage_matches(const struct stage *st, const vbi_event *ev)
+{
+        return ev->type == st->type && (st->type != VBI_EVENT_TTX_PAGE || ev->ev.ttx_page.pgno == st->pgno);
+}
+/* stage j went by without any handler being called */
+static void pass_stage(int j)
+{
+        const struct stage *st = &G.st[j];
+        if (G.bad || st->mode != ST_MUST) return;
+        for (int i = 0; i < G.nr; i++) if (G.r[i].mask & st->type) {
+                char cls[200], d[160];
+                snprintf(cls, sizeof cls, "event due in a decode call not delivered to any handler: %s [%s]", type_name(st->type),
+                         G.decode_actions ? "after callback action in an earlier event of the same call" : "no callback action");
+                snprintf(d, sizeof d, "(f%d,u%d) at position %d was registered for %s %s", G.r[i].f, G.r[i].u, i, type_name(st->type),
+                         G.r[i].born_stage ? "inside a callback of an earlier event of the same decode call, before this event was due" : "before the decode call");
+                G.in_delivery = 0;
+                fail(cls, d); return;
+        }
+}
+static void close_delivery(void) { if (G.in_delivery) end_delivery(G.takers_cur, 1); }
+static int enter_stage(int k)
+{
+        close_delivery();
+        for (int j = G.cur + 1; j < k; j++) pass_stage(j);
+        G.cur = k;
+        if (G.bad) return 0;
+        G.stages_seen |= 1 << k;
+        G.takers_cur = begin_delivery(G.st[k].type);
+        return 1;
+}
+static int stage_accept(const vbi_event *ev)
+{
+        if (G.in_delivery && G.cur >= 0 && G.cur < G.nst && stage_matches(&G.st[G.cur], ev)) return 1;
+        for (int k = G.cur + 1; k < G.nst; k++) if (stage_matches(&G.st[k], ev)) return enter_stage(k);
+        char d[120];
+        if (ev->type == VBI_EVENT_TTX_PAGE) snprintf(d, sizeof d, "TTX_PAGE event for page %x", ev->ev.ttx_page.pgno);
+        else snprintf(d, sizeof d, "event type 0x%x (%s) not due at this point of the decode call", ev->type, type_name(ev->type));
+        if (ev->type == VBI_EVENT_TTX_PAGE && G.forbid_pgno && ev->ev.ttx_page.pgno == G.forbid_pgno) { G.in_delivery = 0; fail(G.forbid_key, d); return 0; }
+        /* a page settled as "not to be acquired" by an earlier decode call turns up later: the same defect, the same key */
+        if (ev->type == VBI_EVENT_TTX_PAGE) for (int k = 0; k < G.ndead; k++) if (G.dead[k].pgno == ev->ev.ttx_page.pgno) { G.in_delivery = 0; fail(G.dead[k].key, d); return 0; }
+        fail("handler called with a different event than the one raised", d);
+        return 0;
+}
+static void decode_begin(void)
+{
+        G.in_decode = 1; G.cur = -1; G.nst = 0; G.in_delivery = 0; G.decode_actions = 0; G.gap_in_decode = 0; G.forbid_pgno = 0; G.later_removed = 0; G.stages_seen = 0;
+        for (int i = 0; i < G.nr; i++) G.r[i].born_stage = 0;
+}
+static void add_stage(int type, int pgno, int mode) { G.st[G.nst].type = type; G.st[G.nst].pgno = pgno; G.st[G.nst].mode = mode; G.nst++; }
+static void decode_run(vbi_sliced *sl, int n)
+{
+        vbi_decode(G.vbi, sl, n, 1.0 + 0.04 * G.frame);      /* consecutive frames: no time gap, no resynchronisation */
+        G.frame++;
+}
+static void decode_finish(void)
+{
+        if (G.forbid_pgno && G.ndead < 16) { G.dead[G.ndead].pgno = G.forbid_pgno; G.dead[G.ndead].key = G.forbid_key; G.ndead++; }
+        close_delivery();
+        for (int j = G.cur + 1; j < G.nst; j++) pass_stage(j);
+        if (!G.bad && G.later_removed) outcome(O_LATER_STAGE_REMOVED);
+        G.cur = G.nst; G.in_decode = 0; G.forbid_pgno = 0;
+        for (int i = 0; i < G.nr; i++) G.r[i].born_stage = 0;
+}
 
 static void on_call(int f, vbi_event *ev, void *ud)
 {
         G.ncalls++;
         if (G.nlog < (int) sizeof G.log) G.log[G.nlog++] = (unsigned char)(f * 2 + (ud == &udtag[1]));
         if (G.bad) return;
-        if (!G.in_delivery) { fail("handler called while no event is being delivered", NULL); return; }
-        if (G.depth) { fail("handler called from inside another handler", NULL); return; }
-        if (!ev || ev->type != G.type) { fail("handler called with a different event than the one raised", NULL); return; }
+        if (G.in_decode) {
+                if (G.depth) { fail("handler called from inside another handler", NULL); return; }
+                if (!ev) { fail("handler called with a different event than the one raised", "no event"); return; }
+                if (!stage_accept(ev)) return;
+        } else {
+                if (!G.in_delivery) { fail("handler called while no event is being delivered", NULL); return; }
+                if (G.depth) { fail("handler called from inside another handler", NULL); return; }
+                if (!ev || ev->type != G.type) { fail("handler called with a different event than the one raised", NULL); return; }
+        }
         int u = ud == &udtag[0] ? 0 : ud == &udtag[1] ? 1 : -1;
         int i = u < 0 ? -1 : find_rec(f, u);
         if (i < 0) {
@@ -400,16 +600,24 @@ static void on_call(int f, vbi_event *ev, void *ud)
         for (int k = i + 1; k < G.nr; k++) if (G.r[k].called) { fail("handlers called out of registration order", d); return; }
         r->called = 1; G.ncalls_this++;
         if (r->fresh & 4) outcome(O_REREG_SAME_DELIVERY);
+        if (G.in_decode && r->born_stage && r->born_stage - 1 < G.cur) {
+                outcome(O_LATER_STAGE_CALLED);
+                static int sampled; if (!sampled++) mc_sample("several events from one decode call: %s => (f%d,u%d) got the %s type inside a %s callback and is called for the %s event of the same packet", hist_str(), f, u, type_name(G.type), type_name(G.st[r->born_stage - 1].type), type_name(G.type));
+        }
 
         /* scripted actions bound to this handler, in arming order */
         int seq = r->seq, h = f * 2 + u;
         G.depth++;
         for (int k = 0; k < G.nsc; ) {
                 if (G.sc[k].h != h) { k++; continue; }
-                int letter = G.sc[k].letter;
+                struct letter letter = G.sc[k].l;
                 memmove(&G.sc[k], &G.sc[k + 1], (G.nsc - k - 1) * sizeof G.sc[0]); G.nsc--;
-                if (ev->type == VBI_EVENT_TTX_PAGE && G.ntx < 0) outcome(O_REAL_EVENT_SCRIPT);
-                exec_op(letter, seq);
+                if (ev->type == VBI_EVENT_TTX_PAGE && G.in_decode) outcome(O_REAL_EVENT_SCRIPT);
+                if ((ev->type == VBI_EVENT_NETWORK || ev->type == VBI_EVENT_NETWORK_ID) && G.in_decode) outcome(O_NET_EVENT_SCRIPT);
+                exec_op(&letter, seq);
+                /* the handlers after this one are still owed the event: it must still be the event that was raised
+                 * (vbi_event_enable() resets vbi->network, which IS the NETWORK / NETWORK_ID event of the decoder) */
+                if (!G.bad && ev->type != G.type) G.ev_overwritten = 1;    /* a violation only if a later handler loses the event by it: end_delivery() */
         }
         G.depth--;
 }
@@ -420,7 +628,7 @@ static void cb2(vbi_event *ev, void *ud) { on_call(2, ev, ud); }
 static int begin_delivery(int type)
 {
         int takers = 0;
-        G.in_delivery = 1; G.type = type; G.ncalls_this = 0; G.last_action[0] = 0; G.action_class = 0;
+        G.in_delivery = 1; G.type = type; G.ncalls_this = 0; G.last_action[0] = 0; G.action_class = 0; G.ev_overwritten = 0;
         for (int i = 0; i < G.nr; i++) {
                 G.r[i].must = (G.r[i].mask & type) != 0; G.r[i].called = 0; G.r[i].fresh = 0;
                 takers += G.r[i].must;
@@ -432,7 +640,14 @@ static void end_delivery(int takers, int expect_raise)
         if (!G.bad && expect_raise)
                 for (int i = 0; i < G.nr; i++) if (G.r[i].must && !G.r[i].called) {
                         char d[80]; snprintf(d, sizeof d, "(f%d,u%d) at position %d never called", G.r[i].f, G.r[i].u, i);
-                        fail("registered handler skipped", d); break;
+                        if (G.ev_overwritten) {
+                                /* a different defect than a wrong traversal: own key, no context suffix */
+                                char dd[200]; snprintf(dd, sizeof dd, "%s; the %s event raised by the decoder had its type field overwritten by a registry call made inside an earlier handler's callback", d, type_name(G.type));
+                                G.in_delivery = 0;
+                                fail("registered handler skipped: event under delivery overwritten by a registry call made inside its callback", dd);
+                                G.in_delivery = 1;
+                        } else fail("registered handler skipped", d);
+                        break;
                 }
         if (!G.bad) {
                 if (!takers) outcome(O_NO_TAKER);
@@ -476,30 +691,143 @@ static void ttx_header(vbi_sliced *s, int mag, int page)
         for (int i = 0; t[i]; i++) s->data[10 + i] = vbi_par8(t[i]);
 }
 
-/* One complete page 2xx (xx = BCD counter, fresh for every transmission) in
- * magazine 2: header, row 1, then the time filling header 2FF which terminates
- * the page and leaves the magazine idle.  Pages above 199 in parallel mode are
- * no rolling header candidates, so store_lop() stores and raises directly. */
+static const char KEY_NOREQ[] = "teletext page acquired although no handler requests TTX_PAGE";
+static const char KEY_GAP[]   = "teletext page acquired although TTX_PAGE was not requested throughout its transmission";
+
+/* BCD page number xx of the n-th page sent, fresh for every page: 01..09, 11..19, ... 71..79 */
+static int next_page(void) { int n = G.npage++ % 72; return ((n / 9) << 4) | (n % 9 + 1); }
+
+/* One complete page Mxx in one vbi_decode call: header, row 1, then the time filling header MFF which
+ * terminates the page and leaves the magazine idle.  Pages above 199 in parallel mode are no rolling header
+ * candidates, so store_lop() stores and raises directly.  M = 2, in the phases which also send a page in
+ * pieces (tx-open / tx-close, magazine 2) M = 3: parallel mode, the page in flight in magazine 2 is not
+ * touched, but callbacks of this page's event can remove the TTX_PAGE handlers under it. */
 static void do_transmit(void)
 {
-        static const int bcd[10] = { 0x01, 0x02, 0x03, 0x04, 0x05, 0x06, 0x07, 0x08, 0x09, 0x10 };
-        int page = bcd[G.frame % 10], pgno = 0x200 + page;
+        int mag = (G.cfg->feat & F_SPLIT) ? 3 : 2;
+        int page = next_page(), pgno = mag * 0x100 + page;
         vbi_sliced s[3];
-        ttx_header(&s[0], 2, page);
-        ttx_packet(&s[1], 2, 1);
+        ttx_header(&s[0], mag, page);
+        ttx_packet(&s[1], mag, 1);
         for (int i = 0; i < 5; i++) s[1].data[2 + i] = vbi_par8("HELLO"[i]);
-        ttx_header(&s[2], 2, 0xFF);
+        ttx_header(&s[2], mag, 0xFF);
         int wanted = (model_union() & VBI_EVENT_TTX_PAGE) != 0;
-        int takers = begin_delivery(VBI_EVENT_TTX_PAGE);
-        G.ntx = -1;                                     /* marks "real event" for the outcome label */
-        vbi_decode(G.vbi, s, 3, 1.0 + 0.04 * G.frame);
-        G.ntx = 0; G.frame++;
+        decode_begin();
+        if (wanted) add_stage(VBI_EVENT_TTX_PAGE, pgno, ST_MUST);
+        else { G.forbid_pgno = pgno; G.forbid_key = KEY_NOREQ; }
+        decode_run(s, 3);
         int cached = vbi_is_cached(G.vbi, pgno, VBI_ANY_SUBNO);
         char d[80]; snprintf(d, sizeof d, "page %x cached=%d, handler wanting TTX_PAGE registered=%d", pgno, cached, wanted);
         if (!G.bad && wanted && !cached) { G.in_delivery = 0; fail("teletext page not acquired although a TTX_PAGE handler is registered", d); }
-        if (!G.bad && !wanted && cached) { G.in_delivery = 0; fail("teletext page acquired although no handler requests TTX_PAGE", d); }
+        if (!G.bad && !wanted && cached) { G.in_delivery = 0; fail(KEY_NOREQ, d); }
         if (!G.bad) outcome(wanted ? O_TX_ACQ : O_TX_NOT_ACQ);
-        end_delivery(takers, wanted);
+        decode_finish();
+}
+
+/* -- a page sent in pieces (seed C11 round 5): tx-open = header 2xx + row 1 (one decode call), tx-close =
+ *    the time filling header 2FF (one decode call); registry calls, raises, transmissions in magazine 3
+ *    and 8/30 packets may come between.  tx-open while a page is in flight is the header of the next page:
+ *    it terminates the page in flight and opens another.
+ *    Reference: the page in flight is acquired (cached + exactly one TTX_PAGE event with its number) iff
+ *    some registration requested TTX_PAGE at every moment from the decode call of its header to the decode
+ *    call of the terminating header; if TTX_PAGE was not requested at some moment in between it is neither
+ *    cached nor announced, also when a handler is registered again before the terminating header. */
+static void air_expect(int air, int pgno)
+{
+        if (air == AIR_CLEAN) add_stage(VBI_EVENT_TTX_PAGE, pgno, ST_MUST);
+        else if (air == AIR_UNDEF) add_stage(VBI_EVENT_TTX_PAGE, pgno, ST_OPTIONAL);
+        else if (air == AIR_TAINTED) { G.forbid_pgno = pgno; G.forbid_key = KEY_GAP; }
+}
+static void air_check(int air, int pgno, int ops, int taint_cb)
+{
+        if (G.bad || air == AIR_NONE) return;
+        int cached = vbi_is_cached(G.vbi, pgno, VBI_ANY_SUBNO);
+        int wanted = (model_union() & VBI_EVENT_TTX_PAGE) != 0;
+        char d[160]; snprintf(d, sizeof d, "page %x (sent in pieces) cached=%d, TTX_PAGE requested throughout=%d, requested at the terminating header=%d, registry calls while in flight=%d",
+                              pgno, cached, air == AIR_CLEAN, wanted, ops);
+        if (air == AIR_CLEAN && !cached) { G.in_delivery = 0; fail("teletext page in flight lost although a TTX_PAGE handler was registered throughout its transmission", d); return; }
+        if (air == AIR_TAINTED && cached) { G.in_delivery = 0; fail(KEY_GAP, d); return; }
+        if (air == AIR_CLEAN && ops) outcome(O_AIR_KEPT);
+        if (air == AIR_TAINTED && wanted) { static int sampled; if (!sampled++) mc_sample("page sent in pieces: %s => page %x neither cached nor announced (last TTX_PAGE handler gone %s while it was in flight)", hist_str(), pgno, taint_cb ? "inside a callback" : "at top level"); }
+        if (air == AIR_TAINTED) outcome(wanted ? (taint_cb ? O_AIR_GAP_CB : O_AIR_GAP_TOP) : O_AIR_LEFT);
+        if (air == AIR_UNDEF) outcome(O_AIR_UNDEF);
+}
+static void do_tx_open(void)
+{
+        int page = next_page(), pgno = 0x200 + page;
+        vbi_sliced s[2];
+        ttx_header(&s[0], 2, page);
+        ttx_packet(&s[1], 2, 1);
+        for (int i = 0; i < 5; i++) s[1].data[2 + i] = vbi_par8("HELLO"[i]);
+        int wanted = (model_union() & VBI_EVENT_TTX_PAGE) != 0;
+        int air = G.air, apgno = G.air_pgno, ops = G.air_ops, tcb = G.air_taint_cb;
+        decode_begin();
+        air_expect(air, apgno);
+        G.air = AIR_NONE;                               /* the page in flight is settled when this call starts */
+        decode_run(s, 2);
+        air_check(air, apgno, ops, tcb);
+        /* the page opened by this call; a gap inside the call can only come from callbacks of the terminated page's event */
+        G.air_pgno = pgno; G.air_ops = 0; G.air_taint_cb = 0;
+        if (!wanted) G.air = AIR_TAINTED;               /* header not even looked at */
+        else if (!G.gap_in_decode) G.air = AIR_CLEAN;
+        else if (model_union() & VBI_EVENT_TTX_PAGE) G.air = AIR_UNDEF;
+        else { G.air = AIR_TAINTED; G.air_taint_cb = 1; }
+        decode_finish();
+}
+static void do_tx_close(void)
+{
+        vbi_sliced s[1];
+        ttx_header(&s[0], 2, 0xFF);
+        int air = G.air, apgno = G.air_pgno, ops = G.air_ops, tcb = G.air_taint_cb;
+        decode_begin();
+        air_expect(air, apgno);
+        G.air = AIR_NONE; G.air_ops = 0; G.air_taint_cb = 0;
+        decode_run(s, 1);
+        air_check(air, apgno, ops, tcb);
+        decode_finish();
+}
+
+/* -- Teletext packet 8/30 (seed C11 round 5): one vbi_decode call which raises up to three events of
+ *    different types.  Format 1 (bsd1): NETWORK and NETWORK_ID when the network is identified (the second
+ *    packet with the same CNI after the identification state was reset; CNI 3201 / 1601 = id 1 in the
+ *    library's table for both formats, so the identification never changes and no channel switch is
+ *    assumed), then LOCAL_TIME with every packet.  Format 2 (bsd2): the same, then PROG_ID. */
+static void bsd_packet(vbi_sliced *s, int fmt)
+{
+        memset(s, 0, sizeof *s);
+        s->id = VBI_SLICED_TELETEXT_B; s->line = 7;
+        uint8_t *p = s->data;
+        p[0] = vbi_ham8(((30 << 3) | 0) & 15); p[1] = vbi_ham8(((30 << 3) | 0) >> 4);     /* magazine 8, packet 30 */
+        p[2] = vbi_ham8(fmt == 1 ? 0 : 2);                                              /* designation code */
+        for (int i = 3; i < 9; i++) p[i] = vbi_ham8(0);                                 /* initial page */
+        for (int i = 9; i < 42; i++) p[i] = vbi_par8(' ');
+        if (fmt == 1) {
+                p[9] = vbi_rev8(0x32); p[10] = vbi_rev8(0x01);                          /* CNI 3201 */
+                p[11] = 0;                                                              /* time offset 0 */
+                p[12] = 0x06; p[13] = 0x99; p[14] = 0x5A;                               /* MJD 58849 + 0x11111 */
+                p[15] = 0x23; p[16] = 0x45; p[17] = 0x67;                               /* 12:34:56 + 0x111111 */
+        } else {
+                /* EN 300 706 9.8.2: bytes 6..12 as nibbles, Hamming 8/4, bits reversed; LCI 0, PIL 0, CNI 1601 */
+                unsigned cni = 0x1601, B[13]; memset(B, 0, sizeof B);
+                B[7]  = (cni >> 12) & 15;
+                B[8]  = ((cni >> 6) & 3) << 6;
+                B[10] = (cni >> 10) & 3;
+                B[11] = (((cni >> 8) & 3) << 6) | (cni & 0x3F);
+                p[9] = vbi_ham8(vbi_rev8(B[6] << 4) & 15);
+                for (int i = 7; i <= 12; i++) { unsigned r = vbi_rev8(B[i]); p[2 * i - 4] = vbi_ham8(r & 15); p[2 * i - 3] = vbi_ham8(r >> 4); }
+        }
+}
+static void do_bsd(int fmt)
+{
+        vbi_sliced s; bsd_packet(&s, fmt);
+        decode_begin();
+        add_stage(VBI_EVENT_NETWORK, 0, ST_OPTIONAL);
+        add_stage(VBI_EVENT_NETWORK_ID, 0, ST_OPTIONAL);
+        add_stage(fmt == 1 ? VBI_EVENT_LOCAL_TIME : VBI_EVENT_PROG_ID, 0, ST_MUST);
+        decode_run(&s, 1);
+        int seen = G.stages_seen;
+        decode_finish();
+        if (!G.bad && seen == 7) outcome(fmt == 1 ? O_BSD1_ALL : O_BSD2_ALL);
 }
 
 /* ---- canonical state ------------------------------------------------------ */
@@ -520,19 +848,24 @@ static void canonical_hash(int prefix, uint64_t out[2])
                 const int *pf = PERM3[p % 6]; int sw = p / 6;
 #define PF(f) ((f) < NF ? pf[f] : (f))
 #define PU(u) ((u) < NU ? ((u) ^ sw) : (u))
-                int v[96], k = 0;
+                int v[128], k = 0;
                 v[k++] = n;
                 for (int i = 0; i < n; i++) { v[k++] = PF(rl[i].f); v[k++] = PU(rl[i].u); v[k++] = rl[i].mask; }
                 v[k++] = G.vbi->event_mask;
                 v[k++] = G.vbi->next_handler != NULL;
                 v[k++] = G.nsc;
                 for (int i = 0; i < G.nsc; i++) {
-                        struct op o = decode_op(G.sc[i].letter);
+                        struct letter o = G.sc[i].l;
                         v[k++] = PF(G.sc[i].h / 2); v[k++] = PU(G.sc[i].h % 2);
                         v[k++] = o.kind; v[k++] = PF(o.f); v[k++] = o.kind == K_REMOVE ? 0 : PU(o.u); v[k++] = o.mi;
                 }
                 v[k++] = G.arms_used >= G.cfg->max_scripts;        /* only "may another action be scripted" matters */
                 v[k++] = prefix < 0 ? -1 : PF(prefix / 2) * 2 + PU(prefix % 2);
+                /* page in flight (model and decoder), network identification state: what tx-close / bsd do next */
+                v[k++] = G.air;
+                v[k++] = G.vbi->vt.raw_page[2].page->function;
+                const vbi_network *nw = &G.vbi->network.ev.network;
+                v[k++] = nw->cycle; v[k++] = nw->cni_8301 != 0; v[k++] = nw->cni_8302 != 0; v[k++] = nw->nuid != 0;
 #undef PF
 #undef PU
                 mc_hash h; mc_hash_init(&h); mc_hash_add(&h, v, k * sizeof v[0]);
@@ -569,10 +902,10 @@ static int run(const uint8_t *hist, int n, uint64_t hash[2], void *arg)
         /* syntax: in(h): must be followed by a call letter; at most max_scripts of them */
         int nin = 0;
         for (int i = 0; i < n; i++) {
-                if (hist[i] >= NLETTERS) return pruned(hash, 0);
-                if (hist[i] >= L_IN) {
+                if (hist[i] >= cfg->nl) return pruned(hash, 0);
+                if (cfg->L[hist[i]].kind == K_IN) {
                         if (++nin > cfg->max_scripts) return pruned(hash, 1);
-                        if (i + 1 < n && hist[i + 1] >= NOPS) return pruned(hash, 2);
+                        if (i + 1 < n && (hist[i + 1] >= cfg->nl || !IS_OP(&cfg->L[hist[i + 1]]))) return pruned(hash, 2);
                         i++;
                 }
         }
@@ -582,20 +915,30 @@ static int run(const uint8_t *hist, int n, uint64_t hash[2], void *arg)
         mc_case("event registry, top level", "n=%d", n);
         G.vbi = vbi_decoder_new();
         if (!G.vbi) { fprintf(stderr, "C11: vbi_decoder_new failed\n"); exit(42); }
-        for (int i = 0; i < cfg->ninit; i++)
-                exec_op(L_REG + cfg->init[i].f * FS + cfg->init[i].u * NM + cfg->init[i].mi, 0);
+        for (int i = 0; i < cfg->ninit; i++) {
+                struct letter l = { K_REG, cfg->init[i].f, cfg->init[i].u, cfg->init[i].mi };
+                exec_op(&l, 0);
+        }
 
-        int prefix = -1, dead = 0;
+        int prefix = -1, dead = 0, nbsd[3] = { 0, 0, 0 };
         for (int i = 0; i < n && !G.bad; i++) {
-                int l = hist[i];
-                if (l >= L_IN) {
-                        int h = l - L_IN;
-                        if (find_rec(h / 2, h % 2) < 0) { dead = 1; break; }      /* only a registered handler can be scripted */
+                const struct letter *l = &cfg->L[hist[i]];
+                switch (l->kind) {
+                case K_IN: {
+                        int h = l->f * NU + l->u;
+                        if (find_rec(l->f, l->u) < 0) { dead = 1; break; }       /* only a registered handler can be scripted */
                         if (i + 1 == n) { prefix = h; break; }
-                        G.sc[G.nsc].h = h; G.sc[G.nsc].letter = hist[++i]; G.nsc++; G.arms_used++;
-                } else if (l < NOPS) exec_op(l, 0);
-                else if (l < L_TX) do_raise(TYPES[l - L_RAISE]);
-                else do_transmit();
+                        G.sc[G.nsc].h = h; G.sc[G.nsc].l = cfg->L[hist[++i]]; G.nsc++; G.arms_used++;
+                        break; }
+                case K_RAISE:   do_raise(TYPES[l->mi]); break;
+                case K_TX:      do_transmit(); break;
+                case K_TXOPEN:  do_tx_open(); break;
+                case K_TXCLOSE: do_tx_close(); break;
+                case K_BSD1:    do_bsd(1); nbsd[1]++; break;
+                case K_BSD2:    do_bsd(2); nbsd[2]++; break;
+                default:        exec_op(l, 0); break;
+                }
+                if (dead || prefix >= 0) break;
         }
         if (dead) { vbi_decoder_delete(G.vbi); return pruned(hash, 3); }
 
@@ -603,9 +946,17 @@ static int run(const uint8_t *hist, int n, uint64_t hash[2], void *arg)
         canonical_hash(prefix, hash);
         int calls_in_history = G.ncalls;
 
-        /* probes on the object that is discarded anyway (pending scripts fire) */
-        if (!G.bad) for (int t = 0; t < 3 && !G.bad; t++) do_raise(TYPES[t]);
-        if (!G.bad) do_transmit();
+        /* probes on the object that is discarded anyway (pending scripts fire): a raise of each type of the
+         * phase; two 8/30 packets of each format (the second of a format is the one which identifies the
+         * network unless it is identified already; the format seen more often in the history goes first,
+         * format 1 on a tie); the terminating header of a page still in flight; one complete page */
+        for (int t = 0; t < cfg->nraise && !G.bad; t++) do_raise(TYPES[t]);
+        if (cfg->feat & F_BSD) {
+                int first = nbsd[2] > nbsd[1] ? 2 : 1;
+                for (int k = 0; k < 4 && !G.bad; k++) do_bsd(k < 2 ? first : 3 - first);
+        }
+        if ((cfg->feat & F_SPLIT) && !G.bad && G.air != AIR_NONE) do_tx_close();
+        if ((cfg->feat & F_TX) && !G.bad) do_transmit();
         if (!G.bad) compare_list_with_model();
 
         vbi_decoder_delete(G.vbi); G.vbi = NULL;
@@ -621,19 +972,37 @@ static int run(const uint8_t *hist, int n, uint64_t hash[2], void *arg)
 
 /* ---- main --------------------------------------------------------------------- */
 
-static const struct cfg CFGS[] = {
+#define REGISTRY_ALPHABET .nf = 3, .nu = 2, .nm = 5, .m = { 0, 1, 2, 3, 4 }, .nraise = 3, .feat = F_TX
+/* seed C11 round 5 (1): pages sent in pieces.  2 functions x 2 user pointers x masks {TTX, CC, TTX|CC}, raise of
+ * TTX_PAGE / CAPTION, a complete page in magazine 3, tx-open, tx-close */
+#define GATE_ALPHABET .nf = 2, .nu = 2, .nm = 3, .m = { 0, 1, 2 }, .nraise = 2, .feat = F_TX | F_SPLIT
+/* seed C11 round 5 (2): decode calls which raise several events.  2 functions x 2 user pointers x masks
+ * {NETWORK|NETWORK_ID, NETWORK_ID, LOCAL_TIME, PROG_ID, -1}, packet 8/30 format 1 and format 2 */
+#define BSD_ALPHABET .nf = 2, .nu = 2, .nm = 5, .m = { 5, 6, 7, 8, 3 }, .nraise = 0, .feat = F_BSD
+static struct cfg CFGS[] = {
         /* everything from the empty registry */
-        { "empty",         0, { {0} },                                 { 5, 6 }, 2 },
+        { "registry-empty",         0, { {0} },                                 { 5, 6 }, 2, REGISTRY_ALPHABET },
         /* populated lists (so that two scripted actions + raises fit into the depth):
          * two records sharing a function + a third (legacy add/remove collide with register) */
-        { "list-f0f0f1",   3, { {0,0,3}, {0,1,3}, {1,0,3} },           { 4, 5 }, 2 },
+        { "registry-list-f0f0f1",   3, { {0,0,3}, {0,1,3}, {1,0,3} },           { 4, 5 }, 2, REGISTRY_ALPHABET },
         /* three different functions */
-        { "list-f0f1f2",   3, { {0,0,3}, {1,0,3}, {2,0,3} },           { 3, 4 }, 2 },
+        { "registry-list-f0f1f2",   3, { {0,0,3}, {1,0,3}, {2,0,3} },           { 3, 4 }, 2, REGISTRY_ALPHABET },
         /* different masks: TTX only / everything / CC only */
-        { "list-mixed",    3, { {0,0,0}, {1,0,3}, {0,1,1} },           { 3, 4 }, 2 },
+        { "registry-list-mixed",    3, { {0,0,0}, {1,0,3}, {0,1,1} },           { 3, 4 }, 2, REGISTRY_ALPHABET },
         /* four records, two pairs sharing a function */
-        { "list-f0f0f1f1", 4, { {0,0,3}, {0,1,3}, {1,0,3}, {1,1,3} }, { 3, 4 }, 2 },
+        { "registry-list-f0f0f1f1", 4, { {0,0,3}, {0,1,3}, {1,0,3}, {1,1,3} }, { 3, 4 }, 2, REGISTRY_ALPHABET },
+        /* page in flight while the registry changes */
+        { "gate-empty",             0, { {0} },                                 { 4, 5 }, 2, GATE_ALPHABET },
+        { "gate-list",              2, { {0,0,0}, {1,0,1} },                    { 4, 5 }, 2, GATE_ALPHABET },   /* TTX ; CC */
+        /* deeper with one function x 2 user pointers x masks {TTX, CC}: callbacks which remove and register the
+         * TTX_PAGE handler while a page is in flight */
+        { "gate-callbacks",         1, { {0,0,0} },                             { 6, 7 }, 2, .nf = 1, .nu = 2, .nm = 2, .m = { 0, 1 }, .nraise = 2, .feat = F_TX | F_SPLIT },
+        /* several events from one decode call */
+        { "bsd-empty",              0, { {0} },                                 { 4, 5 }, 2, BSD_ALPHABET },
+        { "bsd-list",               2, { {0,0,5}, {0,1,6} },                    { 3, 4 }, 2, BSD_ALPHABET },    /* NETWORK|NETWORK_ID ; NETWORK_ID, one function */
 };
+#define NCFG ((int) (sizeof CFGS / sizeof *CFGS))
+#define NREGISTRY 5     /* CFGS[0..5) are the registry-* phases */
 
 /* One written-out scenario, run in the parent: shows that scripted actions really run inside the
  * library's traversal and reach the cursor fix-up, and gives the evidence file a readable sample. */
@@ -671,28 +1040,43 @@ static void self_check(void)
 int main(int argc, char **argv)
 {
         mc_init(argc, argv, "C11");
+        for (int i = 0; i < NCFG; i++) build_cfg(&CFGS[i]);
+        if (CFGS[0].nl != NLETTERS || CFGS[0].L[L_IN].kind != K_IN || CFGS[0].L[L_TX].kind != K_TX || CFGS[0].L[L_UNREG].kind != K_UNREG) {
+                fprintf(stderr, "C11: registry alphabet numbering changed\n"); exit(2);
+        }
         mc_set_budget(120, 1500);
         mc_meta("level", "model_checking");
-        mc_meta("technique", "explicit-state BFS over call histories on the real vbi_decoder event registry, list model oracle driven by the real callbacks, AddressSanitizer for freed records");
-        mc_meta("rule", "a case is a history over 79 letters (30 register = 3 functions x 2 user pointers x masks {TTX, CC, TTX|CC, -1, TRIGGER|NETWORK}, 6 unregister, 30 legacy add, 3 legacy remove, 3 raise, 1 real Teletext transmission, 6 'in handler h:' prefixes that script the following call into h's next invocation; <=2 scripted calls); every history within the depth is replayed on a fresh decoder, audited call by call, then probed with a raise of each type and a transmission; states are canonical (ordered (function,user pointer,mask) list, event_mask, pending scripts) modulo renaming of functions and user pointers; non-trivial = at least one callback was delivered or a scripted action ran");
+        mc_meta("technique", "explicit-state BFS over call histories on the real vbi_decoder event registry, list model oracle driven by the real callbacks (real decode calls are audited stage by stage: one call may raise several events, a page may span several calls), AddressSanitizer for freed records");
+        mc_meta("rule", "a case is a history over the alphabet of its phase family, replayed on a fresh decoder, audited call by call, then probed. "
+                "registry-*: 79 letters (30 register = 3 functions x 2 user pointers x masks {TTX, CC, TTX|CC, -1, TRIGGER|NETWORK}, 6 unregister, 30 legacy add, 3 legacy remove, 3 raise, 1 real Teletext transmission, "
+                "6 'in handler h:' prefixes that script the following call into h's next invocation; <=2 scripted calls). "
+                "gate-*: %d letters (2 functions x 2 user pointers x masks {TTX, CC, TTX|CC}; raise TTX_PAGE / CAPTION, a complete page in magazine 3, tx-open = header + row of a page in magazine 2, "
+                "tx-close = its terminating header, 'in handler h:'; gate-callbacks: %d letters, 1 function x 2 user pointers x {TTX, CC}). "
+                "bsd-*: %d letters (2 functions x 2 user pointers x masks {NETWORK|NETWORK_ID, NETWORK_ID, LOCAL_TIME, PROG_ID, -1}; Teletext packet 8/30 format 1 and format 2 = decode calls raising up to 3 events, 'in handler h:'). "
+                "states are canonical (ordered (function,user pointer,mask) list, event_mask, pending scripts, page in flight, network identification state) modulo renaming of functions and user pointers; "
+                "non-trivial = at least one callback was delivered or a scripted action ran",
+                CFGS[5].nl, CFGS[7].nl, CFGS[8].nl);
         mc_meta("assume", "the registry compares handler functions and user pointers for equality only (justifies the symmetry reduction over the 3 functions x 2 user pointers)");
         mc_meta("assume", "unregister+register of the same (function,user pointer) inside one delivery creates a new registration, which 'may be called at most once for that event' like any handler added during delivery");
         mc_meta("assume", "a mask change that drops the event type before the handler's turn counts as removal for that type; one that adds it counts as added during delivery (0 or 1 calls accepted)");
         mc_meta("assume", "vbi_send_event / vbi_decode are not called from inside a handler (documented as not allowed), so callback nesting depth is 1; the event mutex is not recursive");
         int tier = mc_tier == MC_THOROUGH;
-        char bound[600]; size_t o = 0;
-        for (unsigned i = 0; i < sizeof CFGS / sizeof *CFGS; i++)
+        char bound[900]; size_t o = 0;
+        for (int i = 0; i < NCFG; i++)
                 o += snprintf(bound + o, sizeof bound - o, "%s%s: <=%d letters", i ? "; " : "", CFGS[i].name, CFGS[i].depth[tier]);
-        mc_meta("bound", "%s; <=2 scripted callback actions; every history followed by 3 probe raises + 1 probe transmission", bound);
+        mc_meta("assume", "a page whose transmission falls partly into a period without TTX_PAGE handler is not acquired at all (the library resets the Teletext decoder when TTX_PAGE is activated); if the period lies inside the decode call of the page's own header the page is not compared");
+        mc_meta("assume", "whether a packet 8/30 raises NETWORK / NETWORK_ID is network identification, outside C11: such deliveries are audited when they happen, not demanded; LOCAL_TIME (format 1) and PROG_ID (format 2) are due with every packet if a registration wants them");
+        mc_meta("bound", "%s; <=2 scripted callback actions; every history followed by the probes of its family (registry: 3 raises + 1 transmission; gate: 2 raises + terminating header + 1 transmission; bsd: 4 packets 8/30); one page in flight at a time (magazine 2), one network (CNI 3201 / 1601)", bound);
 
         if (!mc_replaying) self_check();
-        for (unsigned i = 0; i < sizeof CFGS / sizeof *CFGS; i++) {
+        /* the small phase families first: under a global deadline the big registry-* phases are the ones to be cut short */
+        for (int k = 0; k < NCFG; k++) {
+                int i = (k + NREGISTRY) % NCFG;
                 mc_bfs_spec spec; memset(&spec, 0, sizeof spec);
-                spec.nletters = NLETTERS; spec.max_depth = CFGS[i].depth[tier]; spec.timeout_s = 6;
+                spec.nletters = CFGS[i].nl; spec.max_depth = CFGS[i].depth[tier]; spec.timeout_s = 6;
                 spec.run = run; spec.arg = (void *) &CFGS[i]; spec.letter_name = letter_name;
                 mc_bfs_result res;
-                char phase[64]; snprintf(phase, sizeof phase, "registry-%s", CFGS[i].name);
-                mc_bfs(phase, &spec, &res);
+                mc_bfs(CFGS[i].name, &spec, &res);
         }
         return mc_finish();
 }
